@@ -505,23 +505,35 @@ Definition cse (size_limit : Z) (m : model) (fresh : N) : model * N :=
 
 (* ---------------------------------------------------------------- DeduplicateInitializersPass *)
 Definition tensor_size (t : tensor) : Z := fold_left Z.mul (t_shape t) 1%Z.
-Definition dedup_graph_loop (size_limit : Z) (r : gref) : list (vid * tensor) -> list (vid * tensor) -> model -> model :=
+(* `keyeq`: equality of the dictionary keys.  DeduplicateInitializersPass: the key is (dtype, shape, bytes) itself
+   (tensor_eqb).  DeduplicateHashedInitializersPass: (dtype, shape, sha512 of the numpy buffer) — modelled as equality of
+   the hashed buffer, which for string tensors is the NUL-padded fixed-width view — followed by the exact comparison; on
+   a key match with different contents the initializer is skipped WITHOUT being registered. *)
+Definition tensor_hash_eqb (a b : tensor) : bool :=
+  Z.eqb (t_dtype a) (t_dtype b) && list_eqb Z.eqb (t_shape a) (t_shape b)
+  && (if Z.eqb (t_dtype a) DT_STRING
+      then let '(w, x) := np_S_view (t_data a) in let '(w', x') := np_S_view (t_data b) in Z.eqb w w' && list_eqb Z.eqb x x'
+      else list_eqb Z.eqb (t_data a) (t_data b)).
+Definition dedup_graph_loop (keyeq : tensor -> tensor -> bool) (size_limit : Z) (r : gref)
+  : list (vid * tensor) -> list (vid * tensor) -> model -> model :=
   fix loop (inits : list (vid * tensor)) (seen : list (vid * tensor)) (m : model) : model :=
     match inits with
     | [] => m
     | (v, t) :: rest =>
       if is_graph_input m v || is_graph_output m v || Z.ltb size_limit (tensor_size t) then loop rest seen m
-      else match find (fun wt => tensor_eqb (snd wt) t) seen with
-           | Some (w, _) =>
-             let m1 := replace_uses false v w m in
-             loop rest seen (map_graphs (fun g => set_inits g (filter (fun vt => negb (N.eqb (fst vt) v)) (g_inits g))) m1)
+      else match find (fun wt => keyeq (snd wt) t) seen with
+           | Some (w, t') =>
+             if tensor_eqb t' t then
+               let m1 := replace_uses false v w m in
+               loop rest seen (map_graphs (fun g => set_inits g (filter (fun vt => negb (N.eqb (fst vt) v)) (g_inits g))) m1)
+             else loop rest seen m
            | None => loop rest (seen ++ [(v, t)]) m
            end
     end.
 (* model.graphs(): the main graph and every subgraph reachable from it (given as grefs) *)
-Definition dedup_inits (size_limit : Z) (order : list gref) (m : model) : model :=
+Definition dedup_inits (keyeq : tensor -> tensor -> bool) (size_limit : Z) (order : list gref) (m : model) : model :=
   fold_left (fun m r => match get_gref m r with
-                        | Some g => dedup_graph_loop size_limit r (g_inits g) [] m
+                        | Some g => dedup_graph_loop keyeq size_limit r (g_inits g) [] m
                         | None => m end) order m.
 
 (* ---------------------------------------------------------------- LiftConstantsToInitializersPass *)
